@@ -65,6 +65,9 @@ def main():
         print(f"unknown or not-applicable property {prop}")
         return 2
     t0 = time.time()
+    if a.repo and os.path.realpath(a.repo) != os.path.realpath(extract.REPO):
+        # analysing a scratch copy (mutation trials): never touch the committed evidence / replay files
+        os.environ["VERIF_SCRATCH_OUT"] = "1"
     ctx = load(tier, a.repo)
     mod = importlib.import_module(PROPS[prop])
     reports = mod.run(ctx)
